@@ -38,7 +38,7 @@ PROPS = {
         'must_observe': ['grid_rows'],
     },
     'C14': {
-        'scale': {'quick': 6, 'thorough': 5},
+        'scale': {'quick': 6, 'thorough': 10},
         'legs': {'thorough': ['miri']},
         'level': 'exploration',
         'technique': "offline checker using Python's own list/str slice semantics over a recorded event log of real renders; complete grid of lengths x parameter triples",
@@ -72,12 +72,12 @@ PROPS = {
         'claim': 'The base pool (143 values: every kind, every number in every encoding able to hold it, safe/normal strings, nested and near-equal arrays and maps) is checked '
                  'exhaustively for reflexivity, symmetry, transitivity of ==, antisymmetry/transitivity/totality of cmp, Equal=>==, ==>Equal, congruence, partial_cmp=>cmp, '
                  'agreement of == with structural/mathematical equality and of the scalar order with exact arithmetic; random pools repeat this with generated values. '
-                 'Key lookups through 9 access paths are compared with a model keyed by mathematical equality, on maps of 0-16 entries straddling the scan/hash cutoff.',
+                 'Key lookups through 9 access paths are compared with a model keyed by mathematical equality, on maps of 0-16 entries straddling the scan/hash cutoff. The same text built through 11 construction paths (context string, owned key handed back by a loop / keys / pairs, safe mark, concatenation, slice, case round trip, capture, map entry) at every byte length 0-48 (around the inline/heap boundary of the string type) must be equal, ordered as equal, found in arrays and maps and one class for unique, pairwise.',
         'note': 'the model equality/order is separate code written from the documentation; arrays have no documented order, only the laws are asserted for them; float probes into maps are not generated (undocumented)',
         'rule': "one evaluation = one pair comparison, one triple law instance or one rendered lookup/comparison; a cell = (pair of value kinds) for the laws, "
                 "(access path, probe key kind, scan/hash size class, present/absent) for lookups, (kinds, ok/err) for template comparisons",
         'exhaustive': 'all pairs and triples of the base pool; random pools and lookup maps are sampled',
-        'must_observe': ['base_pool_completed', 'lookups', 'triples'],
+        'must_observe': ['base_pool_completed', 'lookups', 'triples', 'string_representation_pairs'],
     },
     'C16': {
         'scale': {'quick': 4, 'thorough': 3},
@@ -91,7 +91,7 @@ PROPS = {
         'must_observe': ['sorts_verified', 'uniques_verified', 'group_bys_verified', 'nth_verified'],
     },
     'C17': {
-        'scale': {'quick': 10, 'thorough': 4},
+        'scale': {'quick': 10, 'thorough': 12},
         'legs': {'thorough': ['miri']},
         'level': 'exploration',
         'technique': 'matrix enumeration with a panic recorder (55 built-ins x 57 receivers x declared-argument states absent/right/wrong kind) + per-built-in contract oracles on random hostile strings and numbers',
